@@ -7,6 +7,7 @@ SETUP = [{"op": "create", "m": "A"}, {"op": "create", "m": "B"},
          {"op": "addrule", "m": "B", "r": "ra"}, {"op": "addrule", "m": "B", "r": "rb"},
          {"op": "addrule", "m": "A", "r": "xa"}, {"op": "exports", "m": "B", "e": "all"}]
 CFG_RE = dict(CFG, setup=SETUP)
+CFG_RE2 = {"Mods": ["MAIN", "A", "B"], "Rules": ["ra", "rb", "xa", "r"], "setup": SETUP + [{"op": "addrule", "m": "B", "r": "r"}]}
 CFG_CYC = {"Mods": ["MAIN", "A", "B"], "Rules": ["ra"], "setup": SETUP}
 CFG_CYC4 = {"Mods": ["MAIN", "A", "B", "C"], "Rules": ["ra"], "setup": SETUP + [{"op": "create", "m": "C"}]}
 
@@ -15,7 +16,7 @@ def match(p, r):
     if p in ("*", "?ALL"):
         return True
     if p.endswith("*"):
-        return r.startswith(p[:-1])
+        return r.startswith(p[:-1])        # "r*" matches "r" itself
     if p.startswith("*"):
         return r.endswith(p[1:])
     return p == r
@@ -107,7 +108,7 @@ def run(ctx):
         c.tlc_l1(ctx, "Modules.tla", "MC_Modules_dev.cfg", expect_violation="NoDanglingDecl", workers=2)
     M = "Modules.tla"
     # multi-entry export lists with overlapping patterns of different item types; import graphs over four modules
-    c.graph_leg(ctx, M, "modules", "Gen_Modules_exp.cfg", CFG_RE, 300 if q else 3000, 6, 0, maxfail=5000000)
+    c.graph_leg(ctx, M, "modules", "Gen_Modules_exp.cfg", CFG_RE2, 300 if q else 3000, 6, 0, maxfail=5000000)
     c.graph_leg(ctx, M, "modules", "Gen_Modules_imp4.cfg", CFG_CYC4, 300 if q else 3000, 6, 0, maxfail=5000000)
     if q:
         c.graph_leg(ctx, M, "modules", "Gen_Modules.cfg", CFG, 300, 7, 2, "Sim_Modules.cfg", 150, 8, maxfail=5000000)
